@@ -5,7 +5,8 @@ patch="$1"; id="$2"; tier="${3:-quick}"
 cd /verif
 if ! git -C /repo diff --quiet; then echo "/repo has uncommitted changes; refusing"; exit 3; fi
 git -C /repo apply "$patch" || { echo "patch does not apply"; exit 3; }
-trap 'git -C /repo checkout -- . ; git -C /repo clean -fdq -- . 2>/dev/null' EXIT
+# always revert, and rebuild so that .cache/bin holds binaries of the unchanged tree again
+trap 'git -C /repo checkout -- . ; git -C /repo clean -fdq -- . 2>/dev/null; ./build.sh >/dev/null 2>&1; [ "$id" = C17 ] && tools/build_seam.sh >/dev/null 2>&1' EXIT
 mkdir -p /verif/.cache/seedrun && cp known_findings.json /verif/.cache/seedrun/
 VERIF_DIR=/verif/.cache/seedrun ./run "$id" "$tier"
 echo "exit=$?"
